@@ -28,7 +28,7 @@ Init ==
   /\ used = <<>> /\ usage = <<>> /\ lim = <<>> /\ lsec = <<>> /\ cur = 0
   /\ conf = TRUE /\ div = <<>> /\ bad = {}
   /\ ts = [t \in 1..NT |-> [st |-> "todo", sched |-> FALSE, fwd |-> T(t).fwd, cur |-> 0, bslot |-> 0, off |-> 0,
-                            done |-> 0, last |-> 0, base |-> 0, gslot |-> -1, gok |-> TRUE,
+                            done |-> 0, last |-> 0, base |-> 0, gslot |-> -1, gok |-> TRUE, gbl |-> 0,
                             start |-> -1, end |-> -1, dl |-> -1, fslot |-> -1, sum |-> <<>>, gsec |-> -1,
                             sel |-> T(t).alloc, lo |-> -1, hi |-> -1, pb |-> {}, lk |-> {}, began |-> FALSE]]
 
@@ -101,7 +101,8 @@ EvBook ==
   /\ LET t == E.task  r == E.res  s == E.slot  k == <<r, s>>
          newGroup == ts[t].gslot # s
          gate == IF newGroup THEN IsFirstBookable(t, s) ELSE ts[t].gok
-         take == Take(t, r, s)
+         gbl == IF newGroup THEN TeamBaseL(t, s) ELSE ts[t].gbl
+         take == Cap(r) - BaseOf(r, gbl)
          ok == cur = t /\ gate /\ E.secsT = take /\ E.usedT = Cap(r) /\ r \in SeqSet(Members(t))
          keys == LimKeys(t, r, s)
          lim2 == [x \in keys |-> Lim(x) + 1] @@ lim
@@ -111,7 +112,7 @@ EvBook ==
          m1 == Members(t)[1]
          pend == IF newGroup THEN {} ELSE ts[t].pb
      IN /\ used' = used2 /\ usage' = usage2 /\ lim' = lim2 /\ lsec' = lsec2
-        /\ ts' = [ts EXCEPT ![t].gslot = s, ![t].gok = gate,
+        /\ ts' = [ts EXCEPT ![t].gslot = s, ![t].gok = gate, ![t].gbl = gbl,
                             ![t].last = IF r = m1 THEN E.secsT ELSE @,
                             ![t].base = IF r = m1 THEN E.usedT - E.secsT ELSE @,
                             ![t].fslot = IF ts[t].fslot < 0 THEN s ELSE @,
@@ -133,6 +134,7 @@ EvBook ==
                       \cup Flag(newGroup \/ E.secsT * R(m1).effN * R(m1).effN = ts[t].gsec * R(r).effN,
                                 <<"C03", l, "team members booked for different instants", t>>)
                       \cup Flag(E.secsT > 0, <<"C03", l, "empty booking", t>>)
+                      \cup Flag(~Plain(t) \/ ~newGroup \/ LeadInOk(t, r, s, E.usedT - E.secsT), <<"C08", l, "idle time reserved in front of the work", t>>)
   /\ UNCHANGED cur
 
 EvOffsetMark ==
@@ -144,6 +146,7 @@ EvOffsetMark ==
      IN /\ used' = used2 /\ usage' = usage2
         /\ conf' = (conf /\ ok) /\ div' = Note(ok, <<"OffsetMark", t, r, s, E.usedT>>)
         /\ bad' = bad \cup Flag(P01At(used2, usage2, k), <<"C01", l, "slot overbooked", <<r, s>>>>)
+                      \cup Flag(~Plain(t) \/ LeadInOk(t, r, s, E.usedT), <<"C08", l, "idle time reserved in front of the work", t>>)
   /\ UNCHANGED <<ts, lim, lsec, cur>>
 
 EvCredit ==
@@ -159,17 +162,19 @@ EvCredit ==
 EvFinish ==
   /\ E.ev = "Finish"
   /\ LET t == E.task  r == E.res  s == E.slot  k == <<r, s>>
-         keep == Keep(t, r)
-         expUsed == Used(r, s) - (ts[t].last - keep)
-         endT == EndTicksF(t, r, s)
-         startT == StartTicksB(t, r, s)
-         ok == /\ r # 0 /\ ts[t].done >= Need(t, r) /\ ts[t].done - ts[t].last < Need(t, r)
-               /\ E.keptT = keep /\ E.usedT = expUsed
-               /\ DateOk(E.date, IF Fwd(t) THEN endT ELSE startT, r)
          q == Usage(r, s)
          idx == {j \in 1..Len(q) : q[j][1] = t}
-         old == IF idx = {} THEN 0 ELSE q[MinOf(idx)][2]
-         q2 == IF idx = {} THEN q ELSE [q EXCEPT ![MinOf(idx)] = <<t, E.keptT>>]
+         old == IF idx = {} THEN 0 ELSE q[MaxOf(idx)][2]            \* r's last booking for t (ticks)
+         tot == IF r \in DOMAIN ts[t].sum THEN ts[t].sum[r] ELSE 0  \* all of r's ticks for t
+         keep == Need(t, r) - (tot - old)                            \* ticks of that booking the task needs
+         base == Used(r, s) - old
+         expUsed == base + keep
+         endT == s * Cap(r) + base + keep
+         startT == (s + 1) * Cap(r) - (base + keep)
+         ok == /\ r # 0 /\ idx # {} /\ tot >= Need(t, r) /\ tot - old < Need(t, r)
+               /\ E.keptT = keep /\ E.usedT = expUsed
+               /\ DateOk(E.date, IF Fwd(t) THEN endT ELSE startT, r)
+         q2 == IF idx = {} THEN q ELSE [q EXCEPT ![MaxOf(idx)] = <<t, E.keptT>>]
          used2 == (k :> E.usedT) @@ used
          usage2 == (k :> q2) @@ usage
          keys == LimKeys(t, r, s)
@@ -182,13 +187,11 @@ EvFinish ==
         /\ ts' = [ts EXCEPT ![t].end = IF Fwd(t) THEN E.date ELSE @, ![t].start = IF Fwd(t) THEN @ ELSE E.date,
                             ![t].pb = pb2, ![t].sum = sums]
         /\ conf' = (conf /\ ok)
-        /\ div' = Note(ok, <<"Finish", t, "expKeep", keep, "got", E.keptT, "expUsed", expUsed, "got", E.usedT,
+        /\ div' = Note(ok, <<"Finish", t, "res", r, "expKeep", keep, "got", E.keptT, "expUsed", expUsed, "got", E.usedT,
                              "expTicks", IF Fwd(t) THEN endT ELSE startT, "gotDate", E.date>>)
-        /\ bad' = bad \cup Flag(P01At(used2, usage2, k), <<"C01", l, "slot overbooked", <<r, s>>>>)
-                      \* C03: on every booked member the ticks add up to the effort exactly ...
-                      \cup Flag(\A m \in DOMAIN sums : sums[m] = Need(t, m), <<"C03", l, "ticks differ from effort", <<t, sums>>>>)
-                      \* ... the last booking is needed and not empty
-                      \cup Flag(E.keptT > 0 /\ ts[t].done - ts[t].last < Need(t, Members(t)[1]), <<"C03", l, "superfluous last booking", t>>)
+        /\ bad' = bad \cup Flag(r = 0 \/ P01At(used2, usage2, k), <<"C01", l, "slot overbooked", <<r, s>>>>)
+                      \* C03: the last booking is needed and not empty (never a further slot beyond the effort)
+                      \cup Flag(E.keptT > 0 /\ tot - old < Need(t, r), <<"C03", l, "superfluous last booking", t>>)
                       \cup Flag(IF Fwd(t) THEN P08F(t, r, s) ELSE P08B(t, r, s), <<"C08", l, "idle eligible slot", t>>)
   /\ UNCHANGED <<lim, cur>>
 
